@@ -68,18 +68,22 @@ class controller {
   }
 
   result run(std::vector<std::function<void()>> bodies, const chooser& choose,
-             const std::function<std::thread(std::function<void()>)>& spawn) {
+             const std::function<std::thread(std::function<void()>)>& spawn,
+             const std::function<void()>& after_hooks_installed = {},
+             const std::function<void()>& controlled_part_over = {}) {
     const int n = static_cast<int>(bodies.size());
     st.assign(static_cast<std::size_t>(n), tstate::not_started);
     spinning.assign(static_cast<std::size_t>(n), false);
     spin_addr.assign(static_cast<std::size_t>(n), nullptr);
     pt_kind.assign(static_cast<std::size_t>(n), 0U);
+    wait_pred.assign(static_cast<std::size_t>(n), nullptr);
     granted.assign(static_cast<std::size_t>(n), false);
     cvs = std::vector<std::condition_variable>(static_cast<std::size_t>(n));
     res = result{};
     g_ctl = this;
     vk::sched_hook.store(&controller::sched_cb);
     vk::obs_hook.store(&controller::obs_cb);
+    if (after_hooks_installed) after_hooks_installed();
     std::vector<std::thread> threads;
     for (int i = 0; i < n; ++i) {
       auto body = bodies[static_cast<std::size_t>(i)];
@@ -123,8 +127,12 @@ class controller {
         if (!any_unfinished) break;
         // threads parked at a spin point stay disabled until some other thread has run
         std::vector<int> nonspin;
-        for (int i : d.enabled)
-          if (!spinning[static_cast<std::size_t>(i)]) nonspin.push_back(i);
+        for (int i : d.enabled) {
+          const auto ui = static_cast<std::size_t>(i);
+          if (spinning[ui]) continue;
+          if (wait_pred[ui] && !wait_pred[ui]()) continue;  // blocked on a harness-level condition
+          nonspin.push_back(i);
+        }
         if (nonspin.empty()) {
           // every unfinished thread is waiting in a spin loop and nobody else can change anything
           res.deadlock = true;
@@ -158,6 +166,7 @@ class controller {
         cvs[static_cast<std::size_t>(c)].notify_all();
       }
     }
+    if (controlled_part_over) controlled_part_over();
     for (auto& t : threads) t.join();
     vk::sched_hook.store(nullptr);
     vk::obs_hook.store(nullptr);
@@ -207,6 +216,25 @@ class controller {
     st[i] = tstate::running;
   }
 
+  // Park the calling controlled thread until pred() holds (evaluated by the controller between steps).
+  // pred must only read state that changes while exactly one controlled thread runs.
+ public:
+  void block_until(std::function<bool()> pred) {
+    if (my_tid < 0) return;
+    const auto i = static_cast<std::size_t>(my_tid);
+    std::unique_lock<std::mutex> l(mu);
+    if (free_run) return;
+    wait_pred[i] = std::move(pred);
+    pt_kind[i] = 0;
+    st[i] = tstate::at_point;
+    ctl_cv.notify_all();
+    cvs[i].wait(l, [&] { return granted[i]; });
+    granted[i] = false;
+    wait_pred[i] = nullptr;
+    st[i] = tstate::running;
+  }
+
+ private:
   static bool is_write_kind(unsigned k) {
     switch (k) {
       case vk::lock_cas: case vk::lock_unlock: case vk::lock_obsolete: case vk::cs_store:
@@ -229,6 +257,7 @@ class controller {
   std::vector<bool> spinning;
   std::vector<const void*> spin_addr;
   std::vector<unsigned> pt_kind;
+  std::vector<std::function<bool()>> wait_pred;
   std::vector<bool> granted;
   result res;
   unsigned long max_steps;
